@@ -37,6 +37,7 @@ mod harnesses {
         if have2 {
             m.elems.insert(k2, 2);
         }
+        let next0 = m.next;
         let serial = m.insert(9);
         assert!(!(have1 && serial == k1) && !(have2 && serial == k2), "a serial in use is never handed out again");
         assert!(m.get_mut(serial).map(|v| *v) == Some(9));
@@ -48,7 +49,7 @@ mod harnesses {
         }
         // the next insert differs again (also across the u32 wrap)
         kani::cover!(serial == u32::MAX);
-        kani::cover!(have1 && have2 && serial != m.next.wrapping_sub(1));
+        kani::cover!(have1 && have2 && serial != next0, "an occupied serial was skipped");
         assert!(m.remove(serial) == Some(9) && m.get_mut(serial).is_none());
     }
 
